@@ -21,7 +21,7 @@ type heapInst struct {
 }
 
 func heapLess(a, b int) bool { return a/10 < b/10 }
-func heapCmp(a, b int) int  { return a/10 - b/10 }
+func heapCmp(a, b int) int   { return a/10 - b/10 }
 
 func newHeap(cmp bool, initial []int) xheap.Heap[int] {
 	if cmp {
@@ -100,24 +100,30 @@ func (x *heapInst) Obs() any { return ObserveHeap(x.h) }
 type PQ struct {
 	Cmp bool
 	K   int
+	Div int
 }
 
 type pqInst struct {
 	cmp bool
 	k   int
+	div int
 	q   xheap.PriorityQueue[int, int]
 	it  map[int]iterator.Iterator[int]
 }
 
-func newPQ(cmp bool, initial []xheap.KP[int, int]) xheap.PriorityQueue[int, int] {
-	if cmp {
-		return xheap.NewPriorityQueueCmp(func(a, b int) int { return a - b }, initial)
+// div > 1: a coarse order - priorities p, q with p/div == q/div tie although they are different values
+func newPQ(cmp bool, div int, initial []xheap.KP[int, int]) xheap.PriorityQueue[int, int] {
+	if div < 1 {
+		div = 1
 	}
-	return xheap.NewPriorityQueue(func(a, b int) bool { return a < b }, initial)
+	if cmp {
+		return xheap.NewPriorityQueueCmp(func(a, b int) int { return a/div - b/div }, initial)
+	}
+	return xheap.NewPriorityQueue(func(a, b int) bool { return a/div < b/div }, initial)
 }
 
 func (s PQ) New() lts.Instance {
-	return &pqInst{cmp: s.Cmp, k: s.K, q: newPQ(s.Cmp, nil), it: map[int]iterator.Iterator[int]{}}
+	return &pqInst{cmp: s.Cmp, k: s.K, div: s.Div, q: newPQ(s.Cmp, s.Div, nil), it: map[int]iterator.Iterator[int]{}}
 }
 
 func (x *pqInst) Do(op lts.Op) any {
@@ -132,7 +138,7 @@ func (x *pqInst) Do(op lts.Op) any {
 		for _, kp := range l {
 			init = append(init, xheap.KP[int, int]{K: kp[0], P: kp[1]})
 		}
-		x.q = newPQ(x.cmp, init)
+		x.q = newPQ(x.cmp, x.div, init)
 		return resOK
 	case "Update":
 		return catch(func() int { q.Update(op.Int(0), op.Int(1)); return resOK })
